@@ -112,23 +112,27 @@ theorem probeSpectrum_energy_pos (kernel : ι → ℂ) (A : ι → ℝ) (aberr :
   unfold probeSpectrum
   exact mul_ne_zero (mul_ne_zero hk (by exact_mod_cast hA)) hab
 
-/-- what one top-level call of `Probe._calculate_array` does to the reciprocal-space array (`Waves(...)`, `tilt.apply` and the final
-`ensure_real_space` do not change it; the first call produces the kernel the fold starts from) -/
-noncomputable def applyOp (A : ι → ℝ) (aberr : ι → ℂ) (op : String) (y : ι → ℂ) : ι → ℂ :=
-  if op = "waves_builder.aperture.apply" then fun k => y k * (A k : ℂ)
-  else if op = "waves_builder.aberrations.apply" then fun k => y k * aberr k
-  else if op = "waves.normalize" then normalize y
-  else y
+/-- What one top-level call of `Probe._calculate_array` does to the reciprocal-space array.  The calls that leave the array alone
+are listed explicitly (`_evaluate_kernel` produces the start value, `Waves(...)` wraps it, `tilt.apply` only tiles/sets metadata,
+`ensure_real_space` is the final inverse transform applied by `probeArray`); any OTHER call is not understood: `none`. -/
+noncomputable def applyOp (A : ι → ℝ) (aberr : ι → ℂ) (op : String) (y : ι → ℂ) : Option (ι → ℂ) :=
+  if op = "waves_builder.aperture.apply" then some fun k => y k * (A k : ℂ)
+  else if op = "waves_builder.aberrations.apply" then some fun k => y k * aberr k
+  else if op = "waves.normalize" then some (normalize y)
+  else if op = "waves_builder.scan_positions._evaluate_kernel" ∨ op = "Waves" ∨ op = "waves_builder.tilt.apply"
+      ∨ op = "waves.ensure_real_space" then some y
+  else none
 
-/-- the reciprocal-space array obtained by running the operations in the given order on the scan kernel -/
-noncomputable def runOps (ops : List String) (kernel : ι → ℂ) (A : ι → ℝ) (aberr : ι → ℂ) : ι → ℂ :=
-  ops.foldl (fun y op => applyOp A aberr op y) kernel
+/-- run the operations in the given order on the scan kernel; `none` if an operation is unknown -/
+noncomputable def runOps (ops : List String) (kernel : ι → ℂ) (A : ι → ℝ) (aberr : ι → ℂ) : Option (ι → ℂ) :=
+  ops.foldlM (fun y op => applyOp A aberr op y) kernel
 
-/-- With the order of operations the code has NOW (`Gen.Probe.probeOps`), the result is the normalisation of the complete product
-kernel · aperture · aberrations: the normalisation comes after every factor. -/
+/-- With the order of operations the code has NOW (`Gen.Probe.probeOps`), every operation is understood and the result is the
+normalisation of the complete product kernel · aperture · aberrations: the normalisation comes after every factor, and nothing
+unknown (e.g. an extra factor) follows it. -/
 theorem probeSpectrumOps_eq (kernel : ι → ℂ) (A : ι → ℝ) (aberr : ι → ℂ) :
-    runOps AbtemVerif.Gen.Probe.probeOps kernel A aberr = normalize (probeSpectrum kernel A aberr) := by
-  simp only [runOps, AbtemVerif.Gen.Probe.probeOps, applyOp, List.foldl_cons, List.foldl_nil]
+    runOps AbtemVerif.Gen.Probe.probeOps kernel A aberr = some (normalize (probeSpectrum kernel A aberr)) := by
+  simp only [runOps, AbtemVerif.Gen.Probe.probeOps, List.foldlM_cons, List.foldlM_nil, applyOp]
   simp
   rfl
 
@@ -139,7 +143,7 @@ theorem probeOps_ends : AbtemVerif.Gen.Probe.probeOps.head? = some "waves_builde
 
 /-- the array `Probe.build` returns (real space): the generated sequence of operations, then the inverse transform -/
 noncomputable def probeArray (P : FourierPair ι) (kernel : ι → ℂ) (A : ι → ℝ) (aberr : ι → ℂ) : ι → ℂ :=
-  P.Finv (runOps AbtemVerif.Gen.Probe.probeOps kernel A aberr)
+  P.Finv ((runOps AbtemVerif.Gen.Probe.probeOps kernel A aberr).getD 0)
 
 /-- Every built probe has unit total intensity in reciprocal space: any scan position (unit-modulus kernel), any
 aperture in which at least one pixel `k0` passes (the zero-angle pixel does, `probeAperture_zero_pixel`), any aberration
@@ -148,7 +152,7 @@ theorem probe_normalized (P : FourierPair ι) (kernel : ι → ℂ) (A : ι → 
     (hk : ∀ k, Complex.normSq (kernel k) = 1) (hA : A k0 ≠ 0) (hw : w ≠ 0) :
     energy (P.F (probeArray P kernel A (fun k => aberration w (chi k)))) = 1 := by
   unfold probeArray
-  rw [P.inv_right, probeSpectrumOps_eq]
+  rw [P.inv_right, probeSpectrumOps_eq, Option.getD_some]
   apply normalize_unit_energy
   apply ne_of_gt
   apply probeSpectrum_energy_pos kernel A _ k0
